@@ -10,6 +10,7 @@ From SqlModel.Gen Require Pin_sql_tree Pin_sql_clauses Pin_api_glue.
 From SqlModel.Inst Require PassTabOk.   (* the grouping tables and driver pins of Group/Passes.v equal the ones regenerated from the source *)
 From SqlModel.Gen Require LexPins.   (* the scan loop, is_keyword, consume and the class-level state of sqlparse/lexer.py have the pinned shape *)
 From SqlModel.Props Require C11g.   (* letter case: all 25 grouping passes and parse, unbounded *)
+From SqlModel.Props Require C11w.   (* white-space tokens re-spelled one for one: all 25 passes, splitter, get_type, unbounded *)
 From SqlModel Require Import Base PyStr Re Lexer SplitDefs Splitter Node Passes MatchSpec.
 From SqlModel Require Import Skeleton SkeletonFacts Skel SkelFacts WsRun.
 From SqlModel.Gen Require Import CaseTabs SplitTab Rules.
